@@ -412,7 +412,11 @@ class ModuleFinder:
         # First find if a parent is in search paths.
         parent_path = path if path.is_dir() else path.parent
         # Always resolve parent path to compare for relativeness against resolved search paths.
-        parent_path = parent_path.resolve()
+        # The last component keeps its name though: a package can be a symbolic link to a directory.
+        if parent_path.name in {"", "..", "."}:
+            parent_path = parent_path.resolve()
+        else:
+            parent_path = parent_path.parent.resolve() / parent_path.name
         # Search paths can be nested (a project root and its `src` folder for example):
         # the closest one is the one the path is a top-level module of.
         rel_paths = []
